@@ -33,6 +33,13 @@ void tzr_make(void* h, long long y, int m, int d, int hh, int mm, int ss, long l
   auto cl = z->MakeTime(cctz::civil_second(y, m, d, hh, mm, ss));
   out[0] = cl.kind; out[1] = cctz::ToUnixSeconds(cl.pre); out[2] = cctz::ToUnixSeconds(cl.trans); out[3] = cctz::ToUnixSeconds(cl.post);
 }
+long long tzr_transoffset(int leap, int jan1_weekday, int fmt, int a, int b, int c, long long time) {
+  cctz::PosixTransition pt;
+  pt.date.fmt = static_cast<cctz::PosixTransition::DateFormat>(fmt);
+  if (fmt == 0) pt.date.j.day = a; else if (fmt == 1) pt.date.n.day = a; else { pt.date.m.month = a; pt.date.m.week = b; pt.date.m.weekday = c; }
+  pt.time.offset = time;
+  return cctz::TransOffset(leap != 0, jan1_weekday, pt);
+}
 int tzr_trans(void* h, int next, long long t, long long* out /* from(6) to(6) */) {
   auto* z = static_cast<cctz::TimeZoneInfo*>(h);
   cctz::time_zone::civil_transition tr;
